@@ -72,6 +72,22 @@ func judge(v sysex.Manufacturer, corrupt bool) {
 		report("parse:rejects-own-output:"+kind, v, b, "Parse fails on the bytes built from the value: "+err.Error())
 		return
 	}
+	// the payload handed in belongs to the caller, including the memory behind
+	// it (chunks of one dump buffer): building must not write there
+	if !v.InfoRequest {
+		arg, touched := engine.Spare(v.SendingData, 4)
+		w := v
+		w.SendingData = arg
+		b2 := w.SysEx()
+		if t := touched(); t != "" {
+			report("build:writes-into-argument:"+kind, v, b2, "SysEx() on a payload slice with spare capacity: "+t)
+			return
+		}
+		if !bytes.Equal(b2, b) {
+			report("build:depends-on-capacity:"+kind, v, b2, "the same value built from a payload slice with spare capacity gives other bytes")
+			return
+		}
+	}
 	// the bytes handed out must stay what they were when another message is
 	// built and parsed afterwards (no shared scratch buffer)
 	keep := append([]byte(nil), b...)
